@@ -82,8 +82,15 @@ def sortRows (S : Strs) (cfg : List (Bytes × Bool)) (rows : List Row) : List Ro
 
 /-! ### GROUP BY -/
 
+/-- `Cell.valueKey`: the text GROUP BY and COUNT(DISTINCT) identify a value by — `String()`, except that
+    anchors are written in UTC, i.e. identified by their instant. -/
+def cellKey (S : Strs) : Cell → Bytes
+  | .time t => 84 :: intBytes t.nanos
+  | .pred (.tmp i t) => 80 :: (lp i ++ intBytes t.nanos)
+  | c => 79 :: cellStr S c
+
 def groupId (S : Strs) (keys : List Bytes) (r : Row) : List Bytes :=
-  keys.map fun k => cellStr S ((r.get k).getD .null)
+  keys.map fun k => cellKey S ((r.get k).getD .null)
 
 /-- Gather rows by group id, groups in the order of their first row. -/
 def gather (S : Strs) (keys : List Bytes) (rows : List Row) : List (List Row) :=
@@ -91,7 +98,7 @@ def gather (S : Strs) (keys : List Bytes) (rows : List Row) : List (List Row) :=
   ids.map fun i => rows.filter fun r => groupId S keys r == i
 
 def distinctCount (S : Strs) (cells : List Cell) : Nat :=
-  ((cells.map (cellStr S)).foldl (fun acc s => if acc.contains s then acc else s :: acc) []).length
+  ((cells.map (cellKey S)).foldl (fun acc s => if acc.contains s then acc else s :: acc) []).length
 
 /-- What an aggregate yields on a group (int64 sums wrap). `floatAdd` is IEEE addition on bits,
     supplied by the driver. -/
